@@ -7,6 +7,7 @@ import (
 	"os/exec"
 	"sort"
 	"strings"
+	"sync"
 	"time"
 
 	"golang.org/x/tools/go/ssa"
@@ -56,8 +57,8 @@ type cThread struct {
 	name     string
 	fn       Value
 	args     []Value
-	spawnKey string // identity: parent thread + spawn position
-	spawner  *cNode // one node of the spawn event in the parent (nil for harness threads)
+	spawnKey string   // identity: parent thread + spawn position
+	spawner  *cNode   // one node of the spawn event in the parent (nil for harness threads)
 	spawners []*cNode // every node (on alternative parent paths) that spawns this thread
 	root     *cNode
 	paths    int
@@ -74,46 +75,46 @@ type cSnapshot struct {
 
 // CMode is the state of one concurrency-mode analysis.
 type CMode struct {
-	x        *Exec
+	x           *Exec
 	deadThreads map[*cThread]bool // threads left out of the encoding (their go statement does not exist in the final pass)
-	threads  []*cThread
-	byKey    map[string]*cThread
-	cands    map[string][]string // cell -> candidate values (initial value first)
-	candSet  map[string]map[string]bool
-	writers  map[string]map[string]map[int]bool // cell -> value -> threads that write it (-1 = initial value)
-	ownLast  map[string]string                  // per path: last value this thread wrote to a cell
-	fCands   map[string][]string                // candidate sets frozen at the start of the pass
-	fWriters map[string]map[string]map[int]bool
-	fShared  map[string]bool
-	fObserved map[string]bool
-	pathCount map[string]int
-	initVal  map[string]string
-	initSet  map[string]map[string]bool // cells of thread-allocated objects: contents at publication
-	recording map[Ptr]bool
-	snaps    map[string]*cSnapshot // value key -> snapshot
-	shared   map[string]bool       // cells touched by an atomic/shared op
-	observed map[string]bool       // cells whose value some thread looks at (Load/Swap/CAS)
-	blindAdds map[string]int
-	changed  bool
-	nodes    []*cNode
-	preObj   map[Ptr]string // slot -> cell id (pre-existing objects get ids on demand)
-	preSeq   int
-	prelude  bool
-	keyVals  map[string]Value
+	threads     []*cThread
+	byKey       map[string]*cThread
+	cands       map[string][]string // cell -> candidate values (initial value first)
+	candSet     map[string]map[string]bool
+	writers     map[string]map[string]map[int]bool // cell -> value -> threads that write it (-1 = initial value)
+	ownLast     map[string]string                  // per path: last value this thread wrote to a cell
+	fCands      map[string][]string                // candidate sets frozen at the start of the pass
+	fWriters    map[string]map[string]map[int]bool
+	fShared     map[string]bool
+	fObserved   map[string]bool
+	pathCount   map[string]int
+	initVal     map[string]string
+	initSet     map[string]map[string]bool // cells of thread-allocated objects: contents at publication
+	recording   map[Ptr]bool
+	snaps       map[string]*cSnapshot // value key -> snapshot
+	shared      map[string]bool       // cells touched by an atomic/shared op
+	observed    map[string]bool       // cells whose value some thread looks at (Load/Swap/CAS)
+	blindAdds   map[string]int
+	changed     bool
+	nodes       []*cNode
+	preObj      map[Ptr]string // slot -> cell id (pre-existing objects get ids on demand)
+	preSeq      int
+	prelude     bool
+	keyVals     map[string]Value
 
 	// per path
-	cur      *cThread
-	events   []cEvent
-	allocSeq int
-	slotID   map[Ptr]string // slots of objects allocated/materialised on this path
-	localObj map[string]Ptr // object id -> local root (materialised)
-	pathBad  string
-	pathEnd  string
-	spawnSeq int
-	overrides map[string]Value
-	rp        *cReplay
+	cur        *cThread
+	events     []cEvent
+	allocSeq   int
+	slotID     map[Ptr]string // slots of objects allocated/materialised on this path
+	localObj   map[string]Ptr // object id -> local root (materialised)
+	pathBad    string
+	pathEnd    string
+	spawnSeq   int
+	overrides  map[string]Value
+	rp         *cReplay
 	inOverride bool
-	synth     map[string]Ptr
+	synth      map[string]Ptr
 
 	Stats struct {
 		Passes, Threads, Paths, Nodes, Reads, Writes int
@@ -121,6 +122,7 @@ type CMode struct {
 		Result                                       string
 		CutLeaves                                    int
 		UnwindOK                                     bool
+		Groups                                       int
 		PlainSharedWrites                            map[string]int
 	}
 	Schedule []string
@@ -1343,22 +1345,61 @@ func (cm *CMode) solve() {
 		}
 		return
 	}
-	w("(assert (or %s))", strings.Join(bads, " "))
-	w("(check-sat)")
-	w("(get-model)")
-	script := sb.String()
-	f, _ := os.CreateTemp("", "gosym-cm-*.smt2")
-	f.WriteString(script)
-	f.Close()
-	if p := os.Getenv("GOSYM_SMTLOG"); p != "" {
-		os.WriteFile(p+".cmode.smt2", []byte(script), 0o644)
+	// The violating leaves are split into groups decided by parallel solver processes over the same
+	// constraint system: all groups unsat = no violating leaf is reachable; any group sat = a schedule.
+	groups := x.cfg.CPar
+	if groups <= 0 {
+		groups = 12
 	}
-	defer os.Remove(f.Name())
+	if groups > len(bads) {
+		groups = len(bads)
+	}
+	if p := os.Getenv("GOSYM_SMTLOG"); p != "" {
+		os.WriteFile(p+".cmode.smt2", []byte(base+fmt.Sprintf("(assert (or %s))\n(check-sat)\n(get-model)\n", strings.Join(bads, " "))), 0o644)
+	}
 	t1 := time.Now()
-	out := runSolverFile(x.cfg.CSolver, f.Name(), x.cfg.CTimeoutS)
-	cm.Stats.SolveS = time.Since(t1).Seconds()
-	x.solver.Queries++
-	x.solver.Seconds += cm.Stats.SolveS
+	outs := make([]string, groups)
+	var wg sync.WaitGroup
+	for g := 0; g < groups; g++ {
+		var lits []string
+		for i := g; i < len(bads); i += groups {
+			lits = append(lits, bads[i])
+		}
+		wg.Add(1)
+		go func(g int, lits []string) {
+			defer wg.Done()
+			f, _ := os.CreateTemp("", "gosym-cm-*.smt2")
+			f.WriteString(base)
+			fmt.Fprintf(f, "(assert (or %s))\n(check-sat)\n(get-model)\n", strings.Join(lits, " "))
+			f.Close()
+			defer os.Remove(f.Name())
+			outs[g] = runSolverFile(x.cfg.CSolver, f.Name(), x.cfg.CTimeoutS)
+		}(g, lits)
+	}
+	wg.Wait()
+	cm.Stats.SolveS += time.Since(t1).Seconds()
+	cm.Stats.Groups = groups
+	x.solver.Queries += groups
+	x.solver.Seconds += time.Since(t1).Seconds()
+	out := ""
+	allUnsat := true
+	for _, o := range outs {
+		fl := firstLineOf(o)
+		if fl == "sat" {
+			out = o
+			allUnsat = false
+			break
+		}
+		if fl != "unsat" {
+			allUnsat = false
+			if out == "" {
+				out = o
+			}
+		}
+	}
+	if allUnsat {
+		out = "unsat"
+	}
 	first := strings.TrimSpace(out)
 	if i := strings.IndexByte(first, '\n'); i >= 0 {
 		first = first[:i]
